@@ -99,6 +99,10 @@ def build_X(xs, n, nonneg=False, d=None):
         X = rs.randn(n, d) * rs.choice([50.0, 1000.0]) + rs.choice([0.0, 100.0, 5000.0])
     elif kind == "scaled":
         X = rs.randn(n, d) * rs.choice([0.01, 1.0, 30.0]) + rs.choice([0.0, 5.0])
+    elif kind == "sentinel":  # ordinary values mixed with a missing-value code of extreme magnitude in one column
+        X = rs.randn(n, d)
+        rows = rs.choice(n, size=max(1, n // 5), replace=False)
+        X[rows, rs.randint(d)] = rs.choice([999999999999999.0, -1e13, 1e18])
     elif kind == "tiny":  # data in small units (metres for atomic distances): every kernel / distance is tiny but exact
         X = rs.randn(n, d) * rs.choice([1e-9, 1e-6, 1e-10, 1e-12])
     elif kind == "big":  # data in large units
